@@ -142,9 +142,9 @@ def r1_kneighbors(ctx):
                 idx = Q.unwrap(gi[2], funcs={"numpy.atleast_2d", "numpy.ravel"}, methods={"ravel"})
                 def newaxis_only(ix):
                     return ix[0] == "tuple" and all(x == ("slice", NONE, NONE, NONE) or x == NONE or (x[0] == "glob" and x[1] == "numpy.newaxis") for x in ix[1])
-                while (idx[0] == "attr" and idx[2] == "T") or (idx[0] == "sub" and newaxis_only(idx[2])):
+                while (idx[0] == "attr" and idx[2] == "T") or (idx[0] == "sub" and newaxis_only(idx[2])) or (idx[0] == "call" and callee(idx) == "numpy.transpose" and len(idx[2]) == 1 and not idx[3]):
                     # np.atleast_2d(indices).T and indices[:, np.newaxis] both only add an axis
-                    idx = Q.unwrap(idx[1], funcs={"numpy.atleast_2d", "numpy.ravel"}, methods={"ravel"})
+                    idx = Q.unwrap(idx[2][0] if idx[0] == "call" else idx[1], funcs={"numpy.atleast_2d", "numpy.ravel"}, methods={"ravel"})
                 if idx[0] == "sub" and idx[1] == q and is_int(idx[2]):
                     ok_idx = True if idx[2][1] == 1 else False
             elif gi is not None and gi[0] == "sub":
